@@ -3,7 +3,35 @@ from vlib import *
 import defs as D, re
 
 
-def judge_render(v, pid, hbin, fam, tag, docs=False, spec_fam=None):
+def usage_of(text):
+    """the usage paragraph of a help text without any blank (a rendered line may be wrapped between any two parts),
+    percent-encoded like the definitions' strings"""
+    from checks.c16 import pe
+    lines = text.split("\n")
+    for i, l in enumerate(lines):
+        if l.startswith("Usage:"):
+            j = i
+            while j < len(lines) and lines[j].strip():
+                j += 1
+            return pe("".join(" ".join(lines[i:j]).split()))
+    return ""
+
+
+def fill_metavars(x):
+    """the default metavariable of the builder, spelled out for the specification"""
+    if isinstance(x, dict):
+        if "id" in x and ("vt" in x or x.get("kind") in ("arg", "pos", "any")) and not x.get("metavar"):
+            x["metavar"] = "MV" + x["id"].upper()
+        for v_ in x.values():
+            fill_metavars(v_)
+    elif isinstance(x, list):
+        for v_ in x:
+            fill_metavars(v_)
+
+
+def judge_render(v, pid, hbin, fam, tag, docs=False, spec_fam=None, usage=False):
+    if usage:
+        fill_metavars(fam)
     dpath = os.path.join(WORK, f"{pid}-{v.tier}-{tag}-defs.ndjson")
     D.write_ndjson(dpath, fam)
     spath = dpath
@@ -22,7 +50,10 @@ def judge_render(v, pid, hbin, fam, tag, docs=False, spec_fam=None):
     slim = trace + ".slim"
     with open(slim, "w") as w:
         for x in recs:
-            w.write(json.dumps({k: x[k] for k in ("def", "path", "kind", "items", "all", "order")}) + "\n")
+            rec = {k: x[k] for k in ("def", "path", "kind", "items", "all", "order")}
+            if usage and x["kind"] == "help" and x.get("class") == "stdout":
+                rec["usage"] = usage_of(x.get("text", ""))
+            w.write(json.dumps(rec) + "\n")
     t = run_tlc("HelpModel", "HelpModel.cfg", env={"TRACE": slim, "DEFS": spath}, workers=1,
                 extra_java="-Xss1g -Dtlc2.tool.queue.IStateQueue=StateDeque", timeout=3000)
     rej = 0
@@ -34,7 +65,10 @@ def judge_render(v, pid, hbin, fam, tag, docs=False, spec_fam=None):
             prob = json.loads(json.loads(m.group(2)))
             sig = {"rule": "listing", "kind": rec["kind"],
                    "missing": sorted({classify(x) for x in prob["missing"]}), "forbidden": sorted({classify(x) for x in prob["forbidden"]}),
-                   "foreign": sorted({classify(x) for x in prob["foreign"]}), "order_ok": prob["order"]}
+                   "foreign": sorted({classify(x) for x in prob["foreign"]}), "order_ok": prob["order"],
+                   "usage_ok": not prob.get("usage")}
+            if prob.get("usage"):
+                prob["usage_observed"] = usage_of(rec.get("text", ""))
             v.report(sig, {"def": rec["def"], "path": rec["path"], "kind": rec["kind"], "problems": prob, "text": rec.get("text", "")[:4000]})
     if not t["ok"]:
         raise ToolError("HelpModel validation did not complete:\n" + t["tail"])
@@ -72,7 +106,7 @@ def run(v):
         D.tree_group_family(SEED + 123, 8 if q else 40, kinds=("alt", "adj")) + D.flagguard_family(SEED + 124, 6 if q else 18) + \
         D.catch_family(SEED + 125, 6 if q else 18)
     D.api_variants(fam, SEED + 126)
-    recs, t = judge_render(v, "C12", hbin, fam, "h")
+    recs, t = judge_render(v, "C12", hbin, fam, "h", usage=True)
     levels = len(recs)
     samples = [{"def": r["def"], "path": r["path"], "items": r["items"][:12]} for r in recs[5:8]]
     cov = {"states": t["distinct"], "transitions": t["states"], "traces_validated_against_impl": levels, "samples": samples,
